@@ -173,7 +173,7 @@ defvjp(anp.arccos, lambda ans, x: lambda g: -g / anp.sqrt(1 - x**2))
 defvjp(anp.arctan, lambda ans, x: lambda g: g / (1 + x**2))
 defvjp(anp.sinh, lambda ans, x: lambda g: g * anp.cosh(x))
 defvjp(anp.cosh, lambda ans, x: lambda g: g * anp.sinh(x))
-defvjp(anp.tanh, lambda ans, x: lambda g: g / anp.cosh(x) ** 2)
+defvjp(anp.tanh, lambda ans, x: lambda g: g * (1.0 + ans) * (1.0 - ans))  # sech(x)**2 without overflowing cosh(x)**2
 defvjp(anp.arcsinh, lambda ans, x: lambda g: g / anp.sqrt(x**2 + 1))
 # (written with two square roots so that it is the derivative of the principal branch for complex x with negative real part too)
 defvjp(anp.arccosh, lambda ans, x: lambda g: g / (anp.sqrt(x - 1) * anp.sqrt(x + 1)))
